@@ -713,7 +713,7 @@ func seedStream(seed int64, k int) []uint64 {
 }
 
 func (prop) Run(line string) core.Outcome {
-	if strings.HasPrefix(line, "prx ") || strings.HasPrefix(line, "key ") || strings.HasPrefix(line, "ck ") || strings.HasPrefix(line, "cf ") || strings.HasPrefix(line, "rp ") || strings.HasPrefix(line, "tim ") || strings.HasPrefix(line, "sc ") || strings.HasPrefix(line, "ah ") || strings.HasPrefix(line, "dy ") {
+	if strings.HasPrefix(line, "prx ") || strings.HasPrefix(line, "key ") || strings.HasPrefix(line, "ck ") || strings.HasPrefix(line, "cf ") || strings.HasPrefix(line, "rp ") || strings.HasPrefix(line, "tim ") || strings.HasPrefix(line, "sc ") || strings.HasPrefix(line, "ah ") || strings.HasPrefix(line, "dy ") || strings.HasPrefix(line, "pd ") || strings.HasPrefix(line, "wr ") {
 		var f []string
 		for _, p := range strings.Split(line, " ") {
 			if p != "" {
@@ -737,6 +737,10 @@ func (prop) Run(line string) core.Outcome {
 			return runAh(f)
 		case "dy":
 			return runDy(f)
+		case "pd":
+			return runPd(f)
+		case "wr":
+			return runWr(f)
 		}
 		return runCk(f)
 	}
